@@ -317,6 +317,26 @@ def run_cli(argv, timeout=25):
         return None, "TIMEOUT"
 
 
+def run_cancel(pdsh, helper, nhosts):
+    """returns (exit status | None, number of canceled targets pdsh reported | None)"""
+    import signal
+    import time
+    argv = [pdsh, "-S", "-f", "1", "-R", "exec", "-w", "h[0-%d]" % (nhosts - 1), helper, "%n", "o-:t3"] + ["o-:e0"] * (nhosts - 1)
+    p = subprocess.Popen(argv, stdin=subprocess.DEVNULL, stdout=subprocess.PIPE, stderr=subprocess.PIPE,
+                         env={"PATH": "/usr/bin:/bin"})
+    time.sleep(1.1)
+    p.send_signal(signal.SIGINT)
+    time.sleep(0.15)
+    p.send_signal(signal.SIGTSTP)
+    try:
+        out, err_ = p.communicate(timeout=20)
+    except subprocess.TimeoutExpired:
+        p.kill()
+        return None, None
+    m = re.search(rb"Canceled (\d+) pending threads", err_)
+    return p.returncode, (int(m.group(1)) if m else None)
+
+
 # --------------------------------------------------------------------------- main
 def run(ctx):
     rng = ctx.rng
@@ -483,6 +503,26 @@ def run(ctx):
                 if sp != "ok":
                     bad.append((s, " ".join(av), ml_, "exit %d" % rc, spl, exit_of(m) == rc))
             report_bad(ctx, bad, bits, "pdsh")
+            # F08-CANCELED on the real binary: fanout 1, first target sleeps, ^C then ^Z within a second cancels the
+            # pending targets; their command never runs, yet -S exits 0
+            for trial in range(1 if ctx.quick() else 3):
+                rc, cancelled = run_cancel(pdsh, helper, 3)
+                cov["evaluations"] += 1
+                dist["cli_cancel"] = dist.get("cli_cancel", 0) + 1
+                case = {"argv": "pdsh -S -f 1 -R exec -w h[0-2] helper %n o-:t3 o-:e0 o-:e0  + SIGINT, SIGTSTP",
+                        "exit": rc, "canceled_reported": cancelled}
+                if rc is None:
+                    ctx.offender("timeout", "pdsh did not finish after ^C ^Z", case)
+                elif cancelled is None:
+                    ctx.notes.append("cancel scenario: pdsh did not report canceled threads (timing); skipped")
+                else:
+                    m = ctx.model("exit", "dsh 1 0 1 0 c1,o-,we0,d0,t0;" + ";".join(["x1"] * cancelled) +
+                                  "".join(";c1,o-,we0,d0,t0" for _ in range(2 - cancelled)) + "\n", args=["model", bits])[0]
+                    if exit_of(m) != rc:
+                        ctx.disagreement("exit model vs pdsh binary (canceled targets)", "exit %s, model `%s`" % (rc, m), case)
+                    if cancelled > 0 and rc == 0:
+                        ctx.offender("S:canceled-exit0", "pdsh -S exits 0 although %d target(s) were canceled and their "
+                                     "command never ran" % cancelled, case)
             for r, (rc, errtxt) in zip(REFUSED, res[len(cs):]):
                 cov["evaluations"] += 1
                 dist["cli_refused"] += 1
